@@ -11,6 +11,7 @@ import hashlib
 import json
 import multiprocessing as mp
 import os
+import re
 import subprocess
 import sys
 import time
@@ -301,7 +302,13 @@ def main(argv=None):
         with open(ledger_path, 'w') as f:
             json.dump(ledger, f, indent=0, sort_keys=True)
     base = set(ledger.get(prop, []))
-    vanished = sorted(base - set(names)) if base else []
+    # site ordinals (`call@9`, `nil@3`) shift when an unrelated call or dereference is added in front of a site: the
+    # ledger is compared with the ordinals left out, so that only the disappearance of a whole kind of obligation of
+    # a function (or of a labelled clause) counts as vanished
+    def _norm(n):
+        return re.sub(r'@\d+', '@', n)
+    have = {_norm(n) for n in names}
+    vanished = sorted(n for n in base if _norm(n) not in have) if base else []
 
     # ------------------------------------------------------------------ known findings
     known = [k for k in load_known(os.path.join(VERIF, 'known_findings.json')) if k.get('property') == prop and k.get('status') == 'open']
